@@ -17,7 +17,7 @@ import ast
 import copy
 from fractions import Fraction
 
-from extract_lib import Tr, Unsupported, emit, find_func, lean_chars, parse_module
+from extract_lib import Tr, Unsupported, emit, find_class, find_func, lean_chars, parse_module
 
 
 def _norm(node):
@@ -289,6 +289,23 @@ class _StatTr(Tr):
         if isinstance(node, ast.Attribute) and node.attr == "st_mtime" and self.m.is_call(node.value, "os.stat", 1) \
                 and isinstance(node.value.args[0], ast.Name) and node.value.args[0].id == self.file_var:
             return ("mtime", "int")
+        # `os.path.getmtime(f)` IS `os.stat(f).st_mtime` (genericpath)
+        if self.m.is_call(node, "os.path.getmtime", 1) and isinstance(node.args[0], ast.Name) \
+                and node.args[0].id == self.file_var:
+            return ("mtime", "int")
+        # the tuple interface `os.stat(f)[ST_MTIME]` is the modification time TRUNCATED to whole seconds, and so are
+        # int(...) / math.floor(...) of it.  The kernels measure modification times in MICROSECONDS (every
+        # correspondence stream does), so the truncation is translated and the model follows the code.
+        if isinstance(node, ast.Subscript) and self.m.is_call(node.value, "os.stat", 1) \
+                and isinstance(node.value.args[0], ast.Name) and node.value.args[0].id == self.file_var:
+            idx = node.slice
+            if self.m.qual(idx) in ("stat.ST_MTIME",) or (isinstance(idx, ast.Constant) and idx.value == 8):
+                return ("(mtime / 1000000 * 1000000)", "int")
+        if isinstance(node, ast.Call) and len(node.args) == 1 and not node.keywords \
+                and self.m.qual(node.func) in ("int", "math.floor"):
+            inner, t = self.tr(node.args[0])
+            if t == "int" and "mtime" in inner:
+                return ("(%s / 1000000 * 1000000)" % inner, "int")
         return super().tr(node)
 
 
@@ -396,32 +413,94 @@ def _filter_term(m, node, var):
     raise Unsupported("retention filter: " + _norm(node))
 
 
-def _retention_block_filter(m, stmts):
-    """`L = {f for p in self._glob_patterns for f in glob.glob(p) if <filter(f)>}` then
-    `self._retention_function(list(L))` (a list comprehension would hand duplicates on: refused).
-    Returns the Lean term of the filter, or None when the block has another shape."""
-    if len(stmts) != 2:
+def _block_defs(stmts):
+    """leading `name = expr` statements of a block, each name assigned once in the block"""
+    defs, count = {}, {}
+    for st in stmts:
+        for n in ast.walk(st):
+            if isinstance(n, ast.Name) and isinstance(n.ctx, ast.Store):
+                count[n.id] = count.get(n.id, 0) + 1
+    rest = list(stmts)
+    while rest and isinstance(rest[0], ast.Assign) and len(rest[0].targets) == 1 \
+            and isinstance(rest[0].targets[0], ast.Name) and count.get(rest[0].targets[0].id) == 1:
+        defs[rest[0].targets[0].id] = rest[0].value
+        rest = rest[1:]
+    return defs, rest
+
+
+def _retention_block_collect(m, stmts):
+    """the retention block, modulo local aliases and ONE level of delegation to an argument-less
+    helper method of the sink:
+
+        self._retention_function(<list of> {ELT for p in self._glob_patterns for f in glob.glob(p) if <filter(f)>})
+
+    Returns (filter term, is_set, handed) or None when the block has another shape.
+    * is_set: the candidates pass through a set (set comprehension, or `set(...)` around a list
+      comprehension / generator) before they are handed on; a bare list comprehension hands duplicates on
+      (translated, not refused: the model follows and `callable_gets_each_family_file_once` breaks);
+    * handed: "matched" when ELT is the globbed name itself, "resolved" for `os.path.realpath(f)`."""
+    defs, rest = _block_defs(stmts)
+    if len(rest) != 1:
         return None
-    a, c = stmts
-    if not (isinstance(a, ast.Assign) and len(a.targets) == 1 and isinstance(a.targets[0], ast.Name)
-            and isinstance(a.value, ast.SetComp) and len(a.value.generators) == 2):
+    c = rest[0]
+    if not (isinstance(c, ast.Expr) and isinstance(c.value, ast.Call) and _norm(c.value.func) == "self._retention_function"
+            and len(c.value.args) == 1 and not c.value.keywords):
         return None
-    L = a.targets[0].id
-    g1, g2 = a.value.generators
-    if not (isinstance(g1.target, ast.Name) and not g1.ifs and _norm(g1.iter) == "self._glob_patterns"
+    arg = inline(c.value.args[0], defs)
+    # one level of delegation: `self._helper()`
+    if isinstance(arg, ast.Call) and not arg.args and not arg.keywords and isinstance(arg.func, ast.Attribute) \
+            and isinstance(arg.func.value, ast.Name) and arg.func.value.id == "self":
+        try:
+            helper = find_func(m.tree, arg.func.attr, cls="FileSink")
+        except Unsupported:
+            return None
+        a = helper.args
+        if a.vararg or a.kwarg or a.kwonlyargs or a.posonlyargs or len(a.args) != 1 or helper.decorator_list:
+            return None
+        hdefs, hrest = _block_defs(helper.body)
+        if len(hrest) != 1 or not isinstance(hrest[0], ast.Return) or hrest[0].value is None:
+            return None
+        arg = inline(hrest[0].value, hdefs)
+    is_set = as_list = False
+    while isinstance(arg, ast.Call) and len(arg.args) == 1 and not arg.keywords and m.qual(arg.func) in ("list", "set", "frozenset", "tuple"):
+        if m.qual(arg.func) in ("set", "frozenset"):
+            is_set = True
+        else:
+            as_list = True
+        arg = arg.args[0]
+    if isinstance(arg, ast.SetComp):
+        is_set = True
+        if not as_list:
+            return None           # the policy functions index / sort a list
+    elif isinstance(arg, ast.ListComp):
+        pass
+    elif isinstance(arg, ast.GeneratorExp):
+        if not (is_set or as_list):
+            return None
+    else:
+        return None
+    if len(arg.generators) != 2:
+        return None
+    g1, g2 = arg.generators
+    if not (isinstance(g1.target, ast.Name) and not g1.ifs and not g1.is_async and not g2.is_async
+            and _norm(g1.iter) == "self._glob_patterns"
             and isinstance(g2.target, ast.Name) and m.is_call(g2.iter, "glob.glob", 1)
             and isinstance(g2.iter.args[0], ast.Name) and g2.iter.args[0].id == g1.target.id
-            and isinstance(a.value.elt, ast.Name) and a.value.elt.id == g2.target.id
             and g1.target.id != g2.target.id):
         return None
-    if not (isinstance(c, ast.Expr) and isinstance(c.value, ast.Call) and _norm(c.value.func) == "self._retention_function"
-            and len(c.value.args) == 1 and not c.value.keywords and m.is_call(c.value.args[0], "list", 1)
-            and isinstance(c.value.args[0].args[0], ast.Name) and c.value.args[0].args[0].id == L):
+    elt = arg.elt
+    if isinstance(elt, ast.Name) and elt.id == g2.target.id:
+        handed = "matched"
+    elif m.is_call(elt, "os.path.realpath", 1) and isinstance(elt.args[0], ast.Name) and elt.args[0].id == g2.target.id:
+        handed = "resolved"
+    else:
         return None
     if not g2.ifs:
-        return "true"
-    terms = [_filter_term(m, t, g2.target.id) for t in g2.ifs]
-    return terms[0] if len(terms) == 1 else "(" + " && ".join(terms) + ")"
+        fterm = "true"
+    else:
+        terms = [_filter_term(m, t, g2.target.id) for t in g2.ifs]
+        fterm = terms[0] if len(terms) == 1 else "(" + " && ".join(terms) + ")"
+    return fterm, is_set, handed
 
 
 def _terminate(m):
@@ -453,9 +532,16 @@ def _terminate(m):
     rets = [s for s in inner if isinstance(s, ast.If) and _norm(s.test) == "self._retention_function is not None"]
     if len(rets) != 1 or inner[-1] is not rets[0] or rets[0].orelse:
         raise Unsupported("retention block is not the last statement of its guard")
-    fterm = _retention_block_filter(m, rets[0].body)
-    if fterm is None:
+    coll = _retention_block_collect(m, rets[0].body)
+    if coll is None:
         raise Unsupported("retention block changed: %r" % ([_norm(s) for s in rets[0].body],))
+    fterm, is_set, handed = coll
+    # the sink state a pass reads is written once, at construction: a pass is a function of the directory
+    for attr in ("_glob_patterns", "_retention_function"):
+        writes = [x for x in ast.walk(find_class(m.tree, "FileSink")) if isinstance(x, ast.Attribute)
+                  and isinstance(x.ctx, (ast.Store, ast.Del)) and x.attr == attr]
+        if len(writes) != 1:
+            raise Unsupported("self.%s is written %d times in FileSink (expected once, in __init__)" % (attr, len(writes)))
     n_calls = sum(1 for x in ast.walk(fn) if isinstance(x, ast.Call) and _norm(x.func) == "self._retention_function")
     if n_calls != 1:
         raise Unsupported("_terminate_file calls the retention function %d times" % n_calls)
@@ -463,6 +549,10 @@ def _terminate(m):
     out += "def retentionGuard (is_rotating rotation_is_none : Bool) : Bool := %s\n" % gterm
     out += "/-- which globbed entries are handed to the policy, by file type (links followed) -/\n"
     out += "def retentionFilter (k : Kind) : Bool := %s\n" % fterm
+    out += "/-- do the globbed candidates pass through a set before they are handed to the policy? -/\n"
+    out += "def collectIsSet : Bool := %s\n" % ("true" if is_set else "false")
+    out += "/-- the name handed to the policy for a candidate: the globbed name itself (`matched`) or its `os.path.realpath` -/\n"
+    out += "def handedName (matched resolved : Py.Str) : Py.Str := %s\n" % handed
     out += "/-- is the guard placed before `if is_rotating: self._create_file(new_path)`?  (statement indices) -/\n"
     out += "def guardIndex : Nat := %d\ndef createIndex : Nat := %d\n\n" % (idx_guard, idx_create)
     w = find_func(m.tree, "write", cls="FileSink")
@@ -475,6 +565,178 @@ def _terminate(m):
     if not any(_norm(x) == "self._glob_patterns = self._make_glob_patterns(self._path)" for x in ast.walk(init)
                if isinstance(x, ast.Assign)):
         raise Unsupported("__init__ no longer derives _glob_patterns from self._path")
+    return out
+
+
+# ----------------------------------------------------------------------------- the sink's own file names
+def _concat_of_format(node, env, what):
+    """`"{}.{}{}".format(a, b, c)` (automatic or explicit positional fields, no conversion / spec) or the
+    f-string `f"{a}.{b}{c}"` over named str inputs -> Lean concatenation term"""
+    import string as _string
+    parts = []
+    if isinstance(node, ast.Call) and isinstance(node.func, ast.Attribute) and node.func.attr == "format" \
+            and isinstance(node.func.value, ast.Constant) and isinstance(node.func.value.value, str) and not node.keywords:
+        args = node.args
+        auto = 0
+        for lit, name, spec, conv in _string.Formatter().parse(node.func.value.value):
+            if lit:
+                parts.append(lean_chars(lit))
+            if name is None:
+                continue
+            if spec or conv:
+                raise Unsupported("%s: format field with conversion/spec" % what)
+            if name == "":
+                idx, auto = auto, auto + 1
+            elif name.isdigit():
+                idx = int(name)
+            else:
+                raise Unsupported("%s: named format field" % what)
+            if idx >= len(args) or not isinstance(args[idx], ast.Name) or args[idx].id not in env:
+                raise Unsupported("%s: format argument %d is not a known name" % (what, idx))
+            parts.append(env[args[idx].id])
+    elif isinstance(node, ast.JoinedStr):
+        for v in node.values:
+            if isinstance(v, ast.Constant) and isinstance(v.value, str):
+                if v.value:
+                    parts.append(lean_chars(v.value))
+            elif isinstance(v, ast.FormattedValue) and v.conversion == -1 and v.format_spec is None \
+                    and isinstance(v.value, ast.Name) and v.value.id in env:
+                parts.append(env[v.value.id])
+            else:
+                raise Unsupported("%s: f-string part %s" % (what, _norm(v)))
+    else:
+        raise Unsupported("%s: not a str.format call / f-string: %s" % (what, _norm(node)))
+    if not parts:
+        return "([] : List Char)"
+    term = parts[0]
+    for q in parts[1:]:
+        term = "(%s ++ %s)" % (term, q)
+    return term
+
+
+def _own_names(m):
+    """`generate_rename_path` (the name a rotated file is moved to), `FileSink._create_path` (the name of
+    a new file) and the default `{time}` format of `FileDateFormatter`."""
+    fn = find_func(m.tree, "generate_rename_path")
+    root, ext, ctime = arg_names(fn, 3)
+    date = counter = None
+    first = second = None
+    for st in ast.walk(fn):
+        if isinstance(st, ast.Assign) and len(st.targets) == 1 and isinstance(st.targets[0], ast.Name):
+            v = st.value
+            if isinstance(v, ast.Call) and m.qual(v.func) == "FileDateFormatter" and len(v.args) == 1 and not v.keywords:
+                if date is not None:
+                    raise Unsupported("generate_rename_path: two date formatters")
+                date = st.targets[0].id
+            elif isinstance(v, ast.Constant) and isinstance(v.value, int) and not isinstance(v.value, bool):
+                if counter is not None:
+                    raise Unsupported("generate_rename_path: two counters")
+                counter = st.targets[0].id
+    whiles = [s for s in fn.body if isinstance(s, ast.While)]
+    if date is None or counter is None or len(whiles) != 1 or not isinstance(fn.body[-1], ast.Return):
+        raise Unsupported("generate_rename_path: expected date formatter, counter, one while loop, final return")
+    w = whiles[0]
+    res = fn.body[-1].value
+    if not (isinstance(res, ast.Name) and m.is_call(w.test, "os.path.exists", 1) and isinstance(w.test.args[0], ast.Name)
+            and w.test.args[0].id == res.id and not w.orelse):
+        raise Unsupported("generate_rename_path: loop is not `while os.path.exists(<result>)`")
+    def is_fmt(v):
+        return isinstance(v, ast.JoinedStr) or (isinstance(v, ast.Call) and isinstance(v.func, ast.Attribute) and v.func.attr == "format")
+    firsts = [s for s in fn.body if isinstance(s, ast.Assign) and len(s.targets) == 1 and isinstance(s.targets[0], ast.Name)
+              and s.targets[0].id == res.id and is_fmt(s.value)]
+    seconds = [s for s in w.body if isinstance(s, ast.Assign) and len(s.targets) == 1 and isinstance(s.targets[0], ast.Name)
+               and s.targets[0].id == res.id and is_fmt(s.value)]
+    others = [s for s in ast.walk(fn) if isinstance(s, (ast.Assign, ast.AugAssign)) and
+              any(isinstance(t, ast.Name) and t.id == res.id for t in (s.targets if isinstance(s, ast.Assign) else [s.target]))]
+    if len(firsts) != 1 or len(seconds) != 1 or len(others) != 2:
+        raise Unsupported("generate_rename_path: the result is not assigned exactly once before and once inside the loop")
+    env = {root: "root", ext: "ext", date: "date", counter: "counter"}
+    t1 = _concat_of_format(firsts[0].value, {k: v for k, v in env.items() if v != "counter"}, "generate_rename_path")
+    t2 = _concat_of_format(seconds[0].value, env, "generate_rename_path (loop)")
+    out = "/-- the name a rotated file is moved to: `%s` -/\n" % _norm(firsts[0].value)
+    out += "def renamedPath (root date ext : Py.Str) : Py.Str := %s\n" % t1
+    out += "/-- … when that name is taken (`counter` = the decimal text of the counter): `%s` -/\n" % _norm(seconds[0].value)
+    out += "def renamedPathN (root date counter ext : Py.Str) : Py.Str := %s\n" % t2
+    # the rename in _terminate_file (or a helper it delegates to): splitext of the old path feeds generate_rename_path
+    cls = find_class(m.tree, "FileSink")
+    found = False
+    for f in ast.walk(cls):
+        if not isinstance(f, ast.FunctionDef):
+            continue
+        calls = [x for x in ast.walk(f) if m.is_call(x, "generate_rename_path", 3)]
+        if not calls:
+            continue
+        if len(calls) != 1:
+            raise Unsupported("%s calls generate_rename_path %d times" % (f.name, len(calls)))
+        r_, e_ = calls[0].args[0], calls[0].args[1]
+        sx = [s for s in ast.walk(f) if isinstance(s, ast.Assign) and len(s.targets) == 1 and isinstance(s.targets[0], ast.Tuple)
+              and len(s.targets[0].elts) == 2 and m.is_call(s.value, "os.path.splitext", 1)]
+        if not (len(sx) == 1 and isinstance(r_, ast.Name) and isinstance(e_, ast.Name)
+                and [getattr(t, "id", None) for t in sx[0].targets[0].elts] == [r_.id, e_.id]):
+            raise Unsupported("%s: generate_rename_path is not fed by `root, ext = os.path.splitext(<old path>)`" % f.name)
+        old = sx[0].value.args[0]
+        ren = [x for x in ast.walk(f) if m.is_call(x, "os.rename", 2)]
+        if not (len(ren) == 1 and isinstance(old, ast.Name) and isinstance(ren[0].args[0], ast.Name) and ren[0].args[0].id == old.id):
+            raise Unsupported("%s: the file renamed is not the one whose name was split" % f.name)
+        found = True
+    if not found:
+        raise Unsupported("no method of FileSink calls generate_rename_path")
+    # _create_path: the template with its `time` field rendered, made absolute
+    cp = find_func(m.tree, "_create_path", cls="FileSink")
+    defs, rest = _block_defs(cp.body)
+    if len(rest) != 1 or not isinstance(rest[0], ast.Return) or rest[0].value is None:
+        raise Unsupported("_create_path: expected aliases and one return")
+    v = inline(rest[0].value, defs)
+    ok = m.is_call(v, "os.path.abspath", 1)
+    if ok:
+        fm = v.args[0]
+        ok = (isinstance(fm, ast.Call) and isinstance(fm.func, ast.Attribute) and fm.func.attr == "format_map"
+              and _norm(fm.func.value) == "self._path" and len(fm.args) == 1 and not fm.keywords
+              and isinstance(fm.args[0], ast.Dict) and len(fm.args[0].keys) == 1
+              and isinstance(fm.args[0].keys[0], ast.Constant) and fm.args[0].keys[0].value == "time"
+              and m.is_call(fm.args[0].values[0], "FileDateFormatter", 0))
+    if not ok:
+        raise Unsupported("_create_path is not abspath(self._path.format_map({'time': FileDateFormatter()})): " + _norm(v))
+    # FileDateFormatter.__format__: the default spec
+    ff = find_func(m.tree, "__format__", cls="FileDateFormatter")
+    _self, spec = arg_names(ff, 2)
+    default = None
+    body = ff.body
+    if len(body) == 2 and isinstance(body[0], ast.If) and not body[0].orelse and len(body[0].body) == 1 \
+            and cond_polarity(body[0].test, lambda e: isinstance(e, ast.Name) and e.id == spec) == -1 \
+            and isinstance(body[0].body[0], ast.Assign) and len(body[0].body[0].targets) == 1 \
+            and isinstance(body[0].body[0].targets[0], ast.Name) and body[0].body[0].targets[0].id == spec \
+            and isinstance(body[0].body[0].value, ast.Constant) and isinstance(body[0].body[0].value.value, str) \
+            and isinstance(body[1], ast.Return):
+        default, used = body[0].body[0].value.value, body[1].value
+        used_spec = spec
+    elif len(body) == 1 and isinstance(body[0], ast.Return):
+        used = body[0].value
+        used_spec = None
+    else:
+        raise Unsupported("FileDateFormatter.__format__ shape")
+    if not (isinstance(used, ast.Call) and isinstance(used.func, ast.Attribute) and used.func.attr == "__format__"
+            and len(used.args) == 1 and not used.keywords):
+        raise Unsupported("FileDateFormatter.__format__ does not delegate to the datetime's __format__")
+    a0 = used.args[0]
+    if used_spec is not None:
+        if not (isinstance(a0, ast.Name) and a0.id == used_spec):
+            raise Unsupported("FileDateFormatter.__format__: argument of the delegation")
+    else:
+        # `spec or "<default>"` / `"<default>" if not spec else spec`
+        if isinstance(a0, ast.BoolOp) and isinstance(a0.op, ast.Or) and len(a0.values) == 2 and isinstance(a0.values[0], ast.Name) \
+                and a0.values[0].id == spec and isinstance(a0.values[1], ast.Constant) and isinstance(a0.values[1].value, str):
+            default = a0.values[1].value
+        elif isinstance(a0, ast.IfExp):
+            pol = cond_polarity(a0.test, lambda e: isinstance(e, ast.Name) and e.id == spec)
+            yes, no = (a0.body, a0.orelse) if pol == 1 else (a0.orelse, a0.body)
+            if pol is not None and isinstance(yes, ast.Name) and yes.id == spec and isinstance(no, ast.Constant) \
+                    and isinstance(no.value, str):
+                default = no.value
+        if default is None:
+            raise Unsupported("FileDateFormatter.__format__: default spec not found")
+    out += "/-- the strftime format an empty `{time}` spec stands for -/\n"
+    out += "def defaultTimeSpec : Py.Str := %s\n\n" % lean_chars(default)
     return out
 
 
@@ -760,6 +1022,7 @@ def generate():
         body += _retention_count(m)
         body += _retention_age(m)
         body += _terminate(m)
+        body += _own_names(m)
         body += _dispatch(m)
         sp, _ = parse_module("_string_parsers.py")
         body += _parse_duration(Mod(sp))
